@@ -1148,6 +1148,9 @@ def run(ctx: Ctx) -> None:
         'backslashes, tabs, non-ASCII; trees are run with the cwd outside the source root (3 of 4) or inside it (1 of 4)',
         'right operands of and/or are never a parenthesised and/or of the same kind (associativity is not a meaning change)',
         'commands that the rewriter rejects (unknown target / option, target exists) must leave the files untouched',
+        'control-flow family: ground truth = the harness\'s concrete evaluator over all 8 configurations of three boolean get_option() '
+        'conditions; a declined edit (files untouched) is tolerated there, an edit that reaches no configuration of the addressed '
+        'target or changes another target is not; `info` is judged only for configuration-independent lists',
         'a declined edit is tolerated only where the rewriter documents it cannot decide (source list shared by two targets, '
         'keyword value too complex for add/remove, extra_files given as a plain string)',
     ]
